@@ -393,6 +393,16 @@ func modelCheck(r *fw.Rec, tree jast.Node, doc interface{}, tag string, op judge
 		return o, true
 	}
 	sig := "mismatch:" + o.Kind
+	if ev.PartialsMade > 0 && o.Kind != "panic" && o.Kind != "compile-error" {
+		// does the port agree with a model that evaluates the given arguments of
+		// a partial application at every call instead of where it is written?
+		ev2 := &refeval.Evaluator{Max: 2000000, MaxRange: ev.MaxRange, PartialArgsAtCall: true}
+		mv2, merr2 := ev2.Run(tree, decodeDoc(docJSON), nil)
+		if r2 := judge.Compare(o, mv2, merr2, op); r2.OK && !r2.Inconclusive {
+			r.Violation("partial:given-arguments-evaluated-at-call-time", "f(?, x) must be a function of its placeholders, but the port evaluates x again at every call (in the environment as it is by then): "+res.Detail, map[string]any{"tag": tag})
+			return o, false
+		}
+	}
 	if o.Kind == "panic" {
 		sig = "panic:" + o.Panic.Site + ":" + o.Panic.Class
 	}
